@@ -20,10 +20,12 @@ from . import rsparse as rp, syn
 from .common import DISCHARGED, FAILED, UNDECIDED, VERIF, Obligation, Undecided, run
 
 TRACKED = {
-    "FftFixedIn": ["chunk_size_in", "fft_size_in", "fft_size_out", "saved_frames", "nbr_channels"],
-    "FftFixedOut": ["chunk_size_out", "fft_size_in", "fft_size_out", "saved_frames", "frames_needed", "nbr_channels"],
-    "FftFixedInOut": ["chunk_size_in", "chunk_size_out", "fft_size_in", "nbr_channels"],
+    "FftFixedIn": ["chunk_size_in", "fft_size_in", "fft_size_out", "saved_frames", "nbr_channels", "overlaps", "input_buffers"],
+    "FftFixedOut": ["chunk_size_out", "fft_size_in", "fft_size_out", "saved_frames", "frames_needed", "nbr_channels", "overlaps", "output_buffers"],
+    "FftFixedInOut": ["chunk_size_in", "chunk_size_out", "fft_size_in", "nbr_channels", "overlaps"],
 }
+# per-channel storage is tracked by its per-channel LENGTH (a usize ghost of the Vec)
+STORAGE = {"overlaps", "input_buffers", "output_buffers"}
 INT_PARAMS = {"sample_rate_input", "sample_rate_output", "chunk_size_in", "chunk_size_out", "sub_chunks", "nbr_channels"}
 
 
@@ -110,6 +112,19 @@ def slice_body(T, body, known0, sigs):
         if st[0] == "let":
             pat, ty, init = st[1], st[2], st[3]
             names = pat[2]
+            if init is not None and len(names) == 1 and names[0] in STORAGE and names[0] in tracked:
+                # let overlaps: Vec<Vec<T>> = vec![vec![T::zero(); LEN]; nbr_channels];  ->  the per-channel length
+                m = rp.strip_paren(init)
+                ok = False
+                if m[0] == "macro" and m[1] == "vec" and m[2] and m[2][0][0] == "repeat":
+                    inner = rp.strip_paren(m[2][0][1])
+                    if inner[0] == "macro" and inner[1] == "vec" and inner[2] and inner[2][0][0] == "repeat" and is_int_expr(inner[2][0][2], known):
+                        out.append(("let " + names[0], "let %s: usize = %s;" % (names[0], render_expr(rewrite(inner[2][0][2])))))
+                        known.add(names[0])
+                        ok = True
+                if not ok:
+                    raise Undecided("allocation of %s is not `vec![vec![T::zero(); LEN]; nbr_channels]`" % names[0])
+                continue
             if init is not None and len(names) == 1 and is_int_expr(init, known):
                 out.append(("let " + names[0], "let %s = %s;" % (pat[1], render_expr(rewrite(init)))))
                 known.add(names[0])
@@ -165,6 +180,8 @@ def slice_body(T, body, known0, sigs):
                         raise Undecided("early non-error return inside a dropped statement: %s" % rp.show(n)[:80])
             for (place, how, ln) in syn.collect_writes(st, sigs):
                 if place and place.startswith("self.") and place[5:] in tracked:
+                    if place[5:] in STORAGE and not re.search(r"push|resize|truncate|clear|extend|insert|remove|pop|append|drain|assignment", how):
+                        continue        # sample data written into the storage: its length (what is tracked) is unchanged
                     raise Undecided("tracked state %s is modified inside a dropped statement (%s)" % (place, how))
                 if place in ("self.*", "self.?"):
                     raise Undecided("dropped statement calls a self method of unknown effect (%s)" % how)
@@ -197,6 +214,8 @@ def slice_if(T, e, known, sigs):
                         continue
             for (place, how, ln) in syn.collect_writes(st, sigs):
                 if place and place.startswith("self.") and place[5:] in tracked:
+                    if place[5:] in STORAGE and not re.search(r"push|resize|truncate|clear|extend|insert|remove|pop|append|drain|assignment", how):
+                        continue
                     raise Undecided("tracked state %s is modified inside a dropped statement (%s)" % (place, how))
         return " ".join(lines), any_kept
 
@@ -380,6 +399,22 @@ def run_stage(scratch, tier, log, prop):
     except (rp.ParseError, Undecided) as e:
         return [Obligation(n, "extraction", UNDECIDED, detail=str(e), functions=[f]) for (n, p, fn, f) in mine]
     rc, out, secs, path = run_verus(scratch, text, "synchro")
+    # proof hints that mention a local the extracted code no longer has are dropped (a hint is never needed for soundness)
+    for _ in range(6):
+        bad = set()
+        for em in re.finditer(r"^error(?:\[[A-Z0-9]+\])?: (cannot find value|cannot find function|mismatched types|no field)[^\n]*\n\s*--> [^:\n]*:(\d+):", out, re.M):
+            ln = int(em.group(2))
+            lines_ = text.splitlines()
+            if 0 < ln <= len(lines_) and "<- extracted from src/synchro.rs" not in lines_[ln - 1] and "<- early return" not in lines_[ln - 1]:
+                bad.add(ln)
+        if not bad:
+            break
+        lines_ = text.splitlines()
+        for ln in bad:
+            lines_[ln - 1] = "        // (proof hint dropped: refers to a name the extracted code does not have)"
+        text = "\n".join(lines_) + "\n"
+        rc, out, secs2, path = run_verus(scratch, text, "synchro")
+        secs += secs2
     log.append("$ verus %s\n%s" % (path, out[-3000:]))
     js, errs = parse_verus(out)
     obs = []
